@@ -378,6 +378,60 @@ def handle (line : String) : String :=
        | none => "pyerr ValueError"
        | some u => s!"ok {u.authAlg} {hex u.authKey} {u.privAlg} {hex u.privKey}")
     | _, _, _, _, _ => bad
+  | ["bulkiter", ncalls, script] =>
+    -- the GetBulkIter wrapper: `script` = outcomes of the socket calls separated by `;`:
+    -- `L:1.2.N.3` (a list: items are numbers, `N` the stop marker; `L:-` the empty list), `E:<class>`
+    let parseItem (x : String) : Option (Option Py.Item) :=
+      if x = "N" then some none else x.toNat?.map (fun n => some ([], [], PyScalar.int n))
+    let parseOut (x : String) : Option PyOut :=
+      match x.splitOn ":" with
+      | ["L", "-"] => some (.value (.list []))
+      | ["L", items] =>
+        let rec all : List String → Option (List (Option Py.Item))
+          | [] => some []
+          | i :: more => match parseItem i, all more with
+            | some a, some b => some (a :: b)
+            | _, _ => none
+        (all (items.splitOn ".")).map (fun l => .value (.list l))
+      | ["E", "BlockingIOError"] => some (.raise .BlockingIOError)
+      | ["E", "StopAsyncIteration"] => some (.raise .StopAsyncIteration)
+      | ["E", "SnmpDecodeError"] => some (.raise .SnmpDecodeError)
+      | ["E", "SnmpAuthError"] => some (.raise .SnmpAuthError)
+      | ["E", "TimeoutError"] => some (.raise .TimeoutError)
+      | _ => none
+    let rec allOut : List String → Option (List PyOut)
+      | [] => some []
+      | o :: more => match parseOut o, allOut more with
+        | some a, some b => some (a :: b)
+        | _, _ => none
+    match ncalls.toNat?, (if script = "-" then some [] else allOut (script.splitOn ";")) with
+    | some n, some os =>
+      let showOut : Py.IterOut → String
+        | .item (_, _, .int v) => s!"i{v}"
+        | .item _ => "i?"
+        | .stop => "S"
+        | .raise e => s!"X:{e.name}"
+        | .panic => "PANIC"
+      "ok " ++ ",".intercalate ((Py.bulkRun n {} os).map showOut)
+    | _, _ => bad
+  | ["nextiter", mode, outcomes] =>
+    -- the GetNextIter wrappers: each socket outcome (`V:n` | `E:<class>`) as the iterator hands it on
+    let parseOut (x : String) : Option PyOut :=
+      match x.splitOn ":" with
+      | ["V", n] => n.toInt?.map (fun v => .value (.scalar (.int v)))
+      | ["E", "BlockingIOError"] => some (.raise .BlockingIOError)
+      | ["E", "StopAsyncIteration"] => some (.raise .StopAsyncIteration)
+      | ["E", "SnmpDecodeError"] => some (.raise .SnmpDecodeError)
+      | ["E", "SnmpAuthError"] => some (.raise .SnmpAuthError)
+      | ["E", "TimeoutError"] => some (.raise .TimeoutError)
+      | ["E", "ValueError"] => some (.raise .ValueError)
+      | _ => none
+    match parseList parseOut outcomes with
+    | some os =>
+      if mode = "sync" then ";".intercalate (os.map (fun o => renderPyOut (Py.syncNextMap o)))
+      else if mode = "async" then ";".intercalate (os.map (fun o => renderPyOut (Py.asyncNextMap o)))
+      else bad
+    | none => bad
   | ["asyncrecv", outcomes] =>
     let parseOut (x : String) : Option PyOut :=
       match x.splitOn ":" with
